@@ -648,6 +648,9 @@ func (c *Ctx) execFor(x *ast.ForStmt, s *State, label string) []Exit {
 // xFall/xContinue go back to the head, xBreak (matching) leave the loop.
 func (c *Ctx) loopCut(node ast.Stmt, pos token.Pos, s *State, li loopInfo, iter func(*State) []Exit, atHead func(*State)) []Exit {
 	c.checkInvariants(s, li, "inv-init", pos)
+	if li.spec != nil && li.spec.Decreases != nil {
+		c.variantAt[li.ord] = "0" // placeholder during the dry run
+	}
 	wv, wh := c.discoverWrites(s, func(d *State) { iter(d) })
 	head := s
 	c.havocWrites(head, wv, wh)
@@ -666,6 +669,7 @@ func (c *Ctx) loopCut(node ast.Stmt, pos token.Pos, s *State, li loopInfo, iter 
 			head.assume(eq(n, variant0))
 			variant0 = n
 		}
+		c.variantAt[li.ord] = variant0
 	}
 	var out []Exit
 	var leave []*State
